@@ -163,12 +163,13 @@ def cov_c16(st, tier):
 
 
 def cov_c14(st, tier):
-    ea, eb = st["parts"]["ea"], st["parts"]["eb"]
+    ea, eb, two = st["parts"]["ea"], st["parts"]["eb"], st["parts"].get("two", {"execs": 0, "steps": 0, "distinct_outcomes": 0, "cells": 0, "answers": 0})
     base = cov_ea("C14", "", ["answers", "max_pending"])(ea, tier)
     base.update({
-        "states": ea["execs"] + ea["states"] + eb["states"], "transitions": ea["steps"] + eb["transitions"],
-        "traces_validated_against_impl": ea["execs"] + eb["transitions"], "evaluations": ea["execs"] + eb["letters_applied"],
-        "distinct_nontrivial": ea["distinct_outcomes"] + eb["distinct_outcomes"],
+        "states": ea["execs"] + ea["states"] + eb["states"] + two["execs"], "transitions": ea["steps"] + eb["transitions"] + two["steps"],
+        "traces_validated_against_impl": ea["execs"] + eb["transitions"] + two["execs"], "evaluations": ea["execs"] + eb["letters_applied"] + two["execs"],
+        "distinct_nontrivial": ea["distinct_outcomes"] + eb["distinct_outcomes"] + two["distinct_outcomes"],
+        "two_client_part": {"executions": two["execs"], "cells": two["cells"], "answers_paired": two["answers"], "wall_s": two.get("wall_s")},
         "rule": "E-A part: state = end state of one complete execution of real client+server under one fate assignment, transition = one scheduler step. "
                 "E-B part: state = distinct exact state (server image, users[], world, client model) reached by a letter sequence, transition = one letter applied to the real server loop. "
                 "Every execution/transition is an implementation run. distinct = distinct delivery outcome classes (E-A) + distinct (letter, pending count, outputs, duplicate answers) classes (E-B)",
@@ -473,3 +474,15 @@ PROPS = {
         "assumptions": EA_ASSUME + EB_ASSUME[2:],
     },
 }
+
+# two real clients behind one server (props/ea2.c): client-to-client forwarding
+_TWO = {"name": "two", "harness": "ea2.c", "flavor": "ubsan", "images": (("s", "server"), ("ca", "client"), ("cb", "client"))}
+PROPS["C01"]["parts"] = [
+    {"name": "ea", "harness": "ea.c", "flavor": "ubsan", "images": (("s", "server"), ("ca", "client")), "args": ["--prop", "C01"]},
+    dict(_TWO, args=["--prop", "C01"]),
+]
+PROPS["C01"]["tiers"] = {"quick": {"budget_s": 480}, "thorough": {"budget_s": 3000}}
+PROPS["C01"]["level_text"] += " A second part runs two real clients behind the server (20 cells: NULL/TXT/MX/CNAME/PRIVATE x lazy/immediate x fragment size) with packets from client to client, client to server, server to client and to an unassigned address, on the clean path and under every single fate deviation (thorough: two deviations)."
+PROPS["C14"]["parts"].append(dict(_TWO, args=["--prop", "C14"]))
+PROPS["C14"]["level_text"] += " (3) The same wire monitor on the two-client exploration (client-to-client packets are sent on the other session's held query)."
+
